@@ -10,11 +10,15 @@ package tsdb
 import (
 	"fmt"
 	"os"
+	"path/filepath"
 	"strings"
 	"testing"
 
 	"github.com/prometheus/prometheus/internal/verif/vx"
+	"github.com/prometheus/prometheus/model/labels"
 	"github.com/prometheus/prometheus/storage"
+	"github.com/prometheus/prometheus/tsdb/record"
+	"github.com/prometheus/prometheus/tsdb/wlog"
 )
 
 type c22State struct {
@@ -22,6 +26,50 @@ type c22State struct {
 	// series whose cached reference was no longer in the head (evicted / garbage-collected) when a
 	// clean restart took a memory snapshot without the fast-startup state file
 	goneAtSnapRestart map[string]bool
+	// staleRef: series whose cached reference was obtained before the last restart. A real process
+	// loses its cached references when it restarts, so such a reference only matters through what
+	// is still ON DISK for it (see c22WALNamesOther).
+	staleRef map[string]storage.SeriesRef
+}
+
+// c22WALNamesOther: does the WAL (newest checkpoint + segments) still hold a series record that gives
+// reference ref to a label set other than cur? Then a later replay would attribute that reference's
+// records to the wrong series.
+func c22WALNamesOther(dir string, ref storage.SeriesRef, cur string) bool {
+	dec := record.NewDecoder(labels.NewSymbolTable(), nil)
+	found := false
+	scan := func(d string) {
+		f, l, err := wlog.Segments(d)
+		if err != nil {
+			return
+		}
+		sr, err := wlog.NewSegmentsRangeReader(wlog.SegmentRange{Dir: d, First: f, Last: l})
+		if err != nil {
+			return
+		}
+		defer sr.Close()
+		rd := wlog.NewReader(sr)
+		for rd.Next() {
+			if dec.Type(rd.Record()) != record.Series {
+				continue
+			}
+			ss, err := dec.Series(rd.Record(), nil)
+			if err != nil {
+				return
+			}
+			for _, s := range ss {
+				if storage.SeriesRef(s.Ref) == ref && seriesKeyOf(s.Labels) != cur {
+					found = true
+				}
+			}
+		}
+	}
+	wal := filepath.Join(dir, "wal")
+	if cp, _, err := wlog.LastCheckpoint(wal); err == nil {
+		scan(cp)
+	}
+	scan(wal)
+	return found
 }
 
 func c22New(r *vx.Run, c dbxCfg, name string) *dbx {
@@ -30,7 +78,7 @@ func c22New(r *vx.Run, c dbxCfg, name string) *dbx {
 	x.ident = true
 	x.syncEvicted = true
 	x.refs = map[string]storage.SeriesRef{}
-	st := &c22State{everRef: map[storage.SeriesRef]string{}, goneAtSnapRestart: map[string]bool{}}
+	st := &c22State{everRef: map[storage.SeriesRef]string{}, goneAtSnapRestart: map[string]bool{}, staleRef: map[string]storage.SeriesRef{}}
 	x.extraOps = func(x *dbx) []string {
 		ops := []string{
 			"app/s1/F+1/f", "app/s2/F+1/f", "app/s3/F+1/f",
@@ -71,8 +119,12 @@ func c22New(r *vx.Run, c dbxCfg, name string) *dbx {
 			return true, nil
 		case "reopen":
 			st.everRef = map[storage.SeriesRef]string{}
+			for sk, ref := range x.refs {
+				st.staleRef[sk] = ref
+				delete(x.refs, sk) // a restarted process holds no cached reference
+			}
 			if x.cfg.Snapshot && !x.cfg.FastStartup {
-				for sk, ref := range x.refs {
+				for sk, ref := range st.staleRef {
 					if ref != 0 && x.db.Head().series.getByID(chunksHeadSeriesRef(ref)) == nil {
 						st.goneAtSnapRestart[sk] = true
 					}
@@ -92,6 +144,10 @@ func c22New(r *vx.Run, c dbxCfg, name string) *dbx {
 			os.RemoveAll(x.dir)
 			x.dir = dst
 			st.everRef = map[storage.SeriesRef]string{}
+			for sk, ref := range x.refs {
+				st.staleRef[sk] = ref
+				delete(x.refs, sk) // a restarted process holds no cached reference
+			}
 			if err := x.open(); err != nil {
 				return true, vx.Failf("op-error/open-after-kill", "open after unclean shutdown: %v", err)
 			}
@@ -104,6 +160,21 @@ func c22New(r *vx.Run, c dbxCfg, name string) *dbx {
 
 // c22CheckRefs: a reference is never handed out for two different label sets (per head lifetime).
 func c22CheckRefs(x *dbx, st *c22State) *vx.Fail {
+	// references cached before the last restart
+	for sk, ref := range st.staleRef {
+		if ref == 0 || x.refs[sk] == ref {
+			continue
+		}
+		{
+			// cached before the last restart: it only matters through what is still on disk for it
+			if s := x.db.Head().series.getByID(chunksHeadSeriesRef(ref)); s != nil && seriesKeyOf(s.labels()) != sk && c22WALNamesOther(x.dir, ref, seriesKeyOf(s.labels())) {
+				if st.goneAtSnapRestart[sk] {
+					return vx.Failf("evicted-series-ref-reissued-after-snapshot-restart", "reference %d returned for %s (evicted before a restart from a memory snapshot) now resolves to %s: an append with the outdated reference goes to the other series", ref, sk, s.labels())
+				}
+				return vx.Failf("series-ref-resolves-to-other-labels", "reference %d returned for %s before the last restart now resolves to %s while the WAL still holds a series record giving it to another label set", ref, sk, s.labels())
+			}
+		}
+	}
 	for sk, ref := range x.refs {
 		if ref == 0 {
 			continue
